@@ -126,6 +126,7 @@ func prop(t *rapid.T) {
 				nr.route = r.AddRoute(rux.NewNamedRoute(pad(nr.name), text, noop))
 			case 2:
 				nr.route = rux.NamedRoute(" "+nr.name+" ", text, noop, "GET")
+				model.ObserveRoute(nr.route) // the prepared route is printed / asked for its URL before it is attached
 				nr.route.AttachTo(r)
 			case 3:
 				nr.route = r.GET(text, noop)
@@ -148,6 +149,14 @@ func prop(t *rapid.T) {
 		}
 		nr.full = nr.p.String()
 		latest[nr.name] = nr
+		// a registration under the same name that the router refuses (a method it does not know): the application
+		// recovers, and the name still refers to the route that was accepted
+		if rapid.IntRange(0, 3).Draw(t, "refusedReRegistration") == 0 {
+			name := nr.name
+			model.TryCall(func() { r.AddRoute(rux.NewNamedRoute(name, "/zz-refused/{id}", noop, "FETCH")) })
+			model.TryCall(func() { r.AddNamed(name, "/zz-refused", nil) })
+			ev.Class("refused-registration-under-an-existing-name")
+		}
 		routes = append(routes, nr)
 		table.Routes = append(table.Routes, model.RouteDef{P: nr.p, Methods: []string{"GET"}, Idx: i})
 		nr.idx = i
@@ -229,8 +238,23 @@ func prop(t *rapid.T) {
 		// values may also be given as non-strings (they are stringified): decimal values are passed as int
 		asAny := func(v string) any {
 			if n, err := strconv.Atoi(v); err == nil && strconv.Itoa(n) == v && len(v) < 9 {
+				switch len(v) % 4 {
+				case 0:
+					ev.Class("value:passed-as-float64(as decoded from JSON)")
+					return float64(n)
+				case 1:
+					ev.Class("value:passed-as-int64-or-uint")
+					if n >= 0 {
+						return uint(n)
+					}
+					return int64(n)
+				}
 				ev.Class("value:passed-as-int")
 				return n
+			}
+			if len(v)%3 == 0 {
+				ev.Class("value:passed-as-[]byte")
+				return []byte(v)
 			}
 			return v
 		}
